@@ -452,16 +452,25 @@ def c10(h):
 def c03(h):
     m = mods(h)
     L = obs_list(h)
-    haspk = set(l.split(" ")[1] for l in h["header"] if l.startswith("ACC ")) - {m["pool"]}
+    haspk = {l.split(" ")[1]: l.split(" ")[1] for l in h["header"] if l.startswith("ACC ")}
+    haspk.pop(m["pool"], None)
+    for l in h["header"]:
+        if l.startswith("PKOF "):           # the genesis file records somebody else's key for this account
+            haspk[l.split(" ")[1]] = l.split(" ")[2]
     for n in range(1, len(L)):
         i, op, o = L[n]
-        if not op.startswith("TX ") or o.result != "ok":
+        if not op.startswith("TX "):
             continue
         _, _, p = L[n - 1]
         spec, f = parse_tx(op)
         signer = tx_signer(spec)
+        if o.result != "ok":
+            # a handler error after the ante handler accepted the transaction: the fee has been collected
+            if not (int(f["fee"]) > 0 and balances(o).get(m["fee"], 0) == balances(p).get(m["fee"], 0) + int(f["fee"])
+                    and balances(o).get(signer, 0) == balances(p).get(signer, 0) - int(f["fee"])):
+                continue
         att = f["att"]
-        key = att if att != "-" else (signer if signer in haspk else None)
+        key = att if att != "-" else haspk.get(signer)
         if key != signer:
             return i, "accepted a transaction verified under key %s that is not the signer %s" % (key, signer), {"kind": "wrong-key"}
         if f["by"] != key or f["mut"] == "1" or f["sigempty"] == "1":
@@ -507,6 +516,8 @@ def c11(h):
             if o.sec.get(k) != p.sec.get(k):
                 return i, "rejected transaction changed state section %s" % k, {"kind": "trace-left", "section": k}
         b0, b1 = balances(p), balances(o)
+        if b0 != b1 and not basic_ok(spec):
+            return i, "a statelessly invalid message (ValidateBasic fails) was charged a fee or moved balances", {"kind": "trace-left", "section": "A"}
         if b0 != b1:
             exp = dict(b0)
             exp[signer] = exp.get(signer, 0) - fee
@@ -514,6 +525,25 @@ def c11(h):
             if {a: x for a, x in exp.items() if x} != {a: x for a, x in b1.items() if x}:
                 return i, "rejected transaction changed balances beyond its fee", {"kind": "trace-left", "section": "A"}
     return None
+
+
+def basic_ok(spec):
+    """msg.ValidateBasic as the message types define it (amounts, actions, heights, empty addresses)"""
+    k = spec[0]
+    try:
+        if k == "stake":
+            return spec[1] not in ("", ".", "-") and int(spec[3]) > 0
+        if k in ("unstake", "unjail"):
+            return spec[1] not in ("", ".", "-")
+        if k == "send":
+            return spec[1] not in ("", ".", "-") and spec[2] not in ("", ".", "-") and int(spec[3]) > 0
+        if k == "dao":
+            return int(spec[3]) != 0 and spec[4] in ("1", "2") and not (spec[4] == "1" and spec[2] in ("", ".", "-"))
+        if k == "upgrade":
+            return int(spec[2]) != 0
+    except (ValueError, IndexError):
+        return True
+    return True
 
 
 # ------------------------------------------------------------------ C17
@@ -532,8 +562,16 @@ def c17(h):
                 frm, key, raw = spec[1], spec[2], spec[-2]
                 owner = acl_owner(p, bytes.fromhex(key).decode())
                 ok = changed == [key] and owner == frm and x1.get(key) == raw
+            if op.startswith("TX upgrade:") and o.result == "ok":
+                spec, f = parse_tx(op)
+                ukey = b"gov/upgrade".hex()
+                ok = changed == [ukey] and acl_owner(p, "gov/upgrade") == spec[1] and x1.get(ukey) == spec[3]
             if not ok:
                 return i, "parameters %s changed by `%s`" % ([bytes.fromhex(k).decode() for k in changed], op[:100]), {"kind": "param-changed"}
+        if op.startswith("TX upgrade:") and o.result == "ok":
+            spec, f = parse_tx(op)
+            if acl_owner(p, "gov/upgrade") != spec[1]:
+                return i, "upgrade accepted from %s who does not own gov/upgrade" % spec[1], {"kind": "not-owner"}
         if op.startswith("TX param:") and o.result == "ok":
             spec, f = parse_tx(op)
             if acl_owner(p, bytes.fromhex(spec[2]).decode()) != spec[1]:
